@@ -26,7 +26,11 @@ func init() {
 			"call is not the first of its sequence; distinct by (files, call sequence prefix)"}
 }
 
-var vPool = []string{"VA", "VB", "VC", "VD", "VE", "VF", "VG"} // VG is only ever the global literal "sub" (templated dirs)
+var vPool = []string{"VA", "VB", "VC", "VD", "VE", "VF", "VG", "TASK_DIR", "TASK"} // VG is only ever the global literal "sub" (templated dirs)
+
+// TASK_DIR and TASK are SPECIAL variables: Task defines them itself (the lowest layer: the model's base environment);
+// a definition of the same name at any site must win over the special value ("available unless overridden").
+var vSpecial = []string{"TASK_DIR", "TASK"}
 
 const vGen = 6 // names the generator draws from
 
@@ -614,7 +618,13 @@ func evalVarsAll(d varsCase) (lines []varsLine) {
 		for i := range vPool {
 			q = append(q, fmt.Sprint(i))
 		}
-		cl := fmt.Sprintf("vars.resolve %s 3 %s %d %s %s %d %s", hx(rootBase), tpl, len(d.OsEnv), strings.Join(baseTok, " "),
+		// the special variables of this call, as the lowest layer: TASK_DIR = the task's raw dir joined to the root, TASK = its name
+		rawDir := orig.Dir
+		if !filepath.IsAbs(rawDir) {
+			rawDir = filepath.Join(dir, rawDir)
+		}
+		callBase := append(append([]string{}, baseTok...), fmt.Sprintf("%d %s", vID("TASK_DIR"), hx(rawDir)), fmt.Sprintf("%d %s", vID("TASK"), hx(name)))
+		cl := fmt.Sprintf("vars.resolve %s 3 %s %d %s %s %d %s", hx(rootBase), tpl, len(d.OsEnv)+2, strings.Join(callBase, " "),
 			strings.Join(blocks, " "), len(q), strings.Join(q, " "))
 		cl = strings.Join(strings.Fields(cl), " ")
 		if !allOK {
@@ -882,6 +892,32 @@ func (c *Ctx) genVarsCase(envdep bool) varsCase {
 			cl.Vars = uniqDefs(c.genDefs(fmt.Sprintf("c%d", i), 2, true, envdep))
 		}
 		d.Seq = append(d.Seq, cl)
+	}
+	// a user definition named like a special variable, at one or two sites: it must win wherever it is visible
+	for k := r.Intn(3); k > 0 && r.Intn(2) == 0; k-- {
+		sp := vDef{Name: vSpecial[r.Intn(len(vSpecial))], Kind: "lit"}
+		switch site := r.Intn(5); {
+		case site == 0:
+			sp.Text = "u-glob"
+			d.RootVars = uniqDefs(append(d.RootVars, sp))
+		case site == 1 && d.Include && !d.Indep:
+			sp.Text = "u-incl"
+			d.IncVars = uniqDefs(append(d.IncVars, sp))
+		case site == 2 && d.Include && !d.Deep:
+			sp.Text = "u-sub"
+			d.SubVars = uniqDefs(append(d.SubVars, sp))
+		case site == 3:
+			sp.Text = "u-task"
+			ti := r.Intn(nt)
+			d.Tasks[ti].Vars = uniqDefs(append(d.Tasks[ti].Vars, sp))
+		case site == 4 && len(d.Seq) > 0:
+			sp.Text = "u-call"
+			ci := r.Intn(len(d.Seq))
+			d.Seq[ci].Vars = uniqDefs(append(d.Seq[ci].Vars, sp))
+		default:
+			continue
+		}
+		c.Hit("special-var-defined:" + sp.Name + ":" + sp.Text)
 	}
 	return d
 }
